@@ -1,5 +1,6 @@
 import GoframeModel.Ops.TimeSeries
 import GoframeModel.Spec.Resample
+import GoframeModel.Lemmas.Resample
 /-
   C18 — Resample yields one correctly aggregated row per time bucket, in time order.
   `time.Date` on civil fields in a fixed-offset location is the identity on the fields (law L1, built
@@ -10,7 +11,7 @@ open Goframe Frame
 
 /-- truncation is idempotent -/
 theorem truncate_idem (q : Freq) (t : GoTime) : truncate q (truncate q t) = truncate q t := by
-  sorry
+  exact ResampleLemmas.truncate_idem q t
 
 /-- two timestamps of one location share a bucket iff their civil fields agree down to the unit -/
 def sameDownTo (q : Freq) (a b : GoTime) : Prop :=
@@ -19,7 +20,7 @@ def sameDownTo (q : Freq) (a b : GoTime) : Prop :=
 
 theorem same_bucket_iff (q : Freq) (a b : GoTime) (hloc : a.off = b.off ∧ a.zone = b.zone) :
     truncate q a = truncate q b ↔ sameDownTo q a b := by
-  sorry
+  exact ResampleLemmas.same_bucket_iff q a b hloc
 
 /-- the result does not depend on the order in which Go's map iteration yields the buckets: repeating
 the call gives the same frame -/
@@ -28,14 +29,14 @@ theorem resample_order_free (ω : Oracle) (f : Frame) (k freq : Str) (agg : AggF
     (hinj : ∀ c, f.get? k = some c → ∀ x ∈ c.data, ∀ y ∈ c.data, ∀ s t, x = .time s → y = .time t →
       ∀ q, (truncate q s).unix = (truncate q t).unix → truncate q s = truncate q t) :
     f.resampleWith π₁ ω k freq agg = f.resampleWith π₂ ω k freq agg := by
-  sorry
+  exact ResampleLemmas.resample_order_free ω f k freq agg π₁ π₂ h₁ h₂ hinj
 
 /-- buckets come out in ascending time order, each once -/
 theorem resample_sorted (ω : Oracle) (f : Frame) (k freq : Str) (agg : AggFn) (out : Frame)
     (h : f.resample ω k freq agg = .ok out) :
     ∃ bs : List GoTime, out.get? k = some { name := k, data := bs.map Cell.time } ∧
       bs.Pairwise (fun a b => a.unix ≤ b.unix) ∧ bs.Nodup := by
-  sorry
+  exact ResampleLemmas.resample_sorted ω f k freq agg out h
 
 /-- the model equals the row-level specification: one row per distinct bucket, the time column holds the
 bucket start, every other column the aggregate over exactly that bucket's cells in original row order -/
@@ -44,13 +45,13 @@ theorem resample_spec (ω : Oracle) {f : Frame} {n : Nat} (hs : f.Sorted) (hr : 
     (match Spec.resampleSpec ω f k freq agg with
      | some e => f.resample ω k freq agg = .ok e
      | none => (f.resample ω k freq agg).isErr = true) := by
-  sorry
+  exact ResampleLemmas.resample_spec ω hs hr k freq agg
 
 /-- invalid requests: unknown column, unknown frequency code, a cell that is not a time.Time -/
 theorem resample_invalid (ω : Oracle) (f : Frame) (k freq : Str) (agg : AggFn) :
     (f.has k = false → (f.resample ω k freq agg).isErr = true) ∧
     (parseFreq freq = none → (f.resample ω k freq agg).isErr = true) := by
-  sorry
+  exact ResampleLemmas.resample_invalid ω f k freq agg
 
 /-- the pinned version emitted buckets in map-iteration order: two iteration orders, two different frames
 (finding D13) — `id` versus `reverse` without the final sort -/
